@@ -135,6 +135,19 @@ func randGen32(r *rand.Rand, keys []uint64) iset {
 		}
 		s = s.union(chunkShape(r, k))
 	}
+	if spreadKeys > 0 && r.Intn(2) == 0 { // one or two values in each of a few hundred consecutive chunks
+		k0 := uint64(r.Intn(65536 - spreadKeys))
+		if r.Intn(3) == 0 {
+			k0 = uint64(65536 - spreadKeys)
+		}
+		var sp []span
+		low := uint64(r.Intn(65536))
+		for k := 0; k < spreadKeys; k++ {
+			v := (k0+uint64(k))<<16 + low
+			sp = append(sp, span{v, v})
+		}
+		s = s.union(normalize(sp))
+	}
 	if r.Intn(6) == 0 && len(keys) >= 2 { // a range spanning several chunks
 		a := keys[r.Intn(len(keys))]<<16 + uint64(r.Intn(65536))
 		b := a + uint64(r.Intn(200000))
@@ -317,18 +330,30 @@ func accUniverse32(r *rand.Rand, maxAtoms int) (*Universe, []iset, [][]int) {
 		key := pick(r, []uint64{0, 1, 7, 0x7FFF, 0xFFFF})
 		base := key << 16
 		var runs, iso []span
+		deep := maxAtoms >= 150 // long accumulations: few short runs, many single-value groups
 		pos := uint64(r.Intn(200))
-		for i, n := 0, 8+r.Intn(5); i < n; i++ {
-			ln := uint64(8 + r.Intn(30))
+		nruns, maxlen := 8+r.Intn(5), 30
+		if deep {
+			nruns, maxlen = 8+r.Intn(2), 4
+		}
+		for i := 0; i < nruns; i++ {
+			ln := uint64(8 + r.Intn(maxlen))
 			runs = append(runs, span{base + pos, base + pos + ln - 1})
 			pos += ln + uint64(20+r.Intn(200))
 		}
 		var cuts []uint64
 		ngroups := 12 + r.Intn(5)
+		if deep {
+			ngroups = 70 + r.Intn(20)
+		}
 		pos += 500
 		for g := 0; g < ngroups && pos < 64000; g++ {
 			cuts = append(cuts, base+pos)
-			for i, n := 0, 1+r.Intn(3); i < n; i++ {
+			gsz := 1 + r.Intn(3)
+			if deep {
+				gsz = 1
+			}
+			for i, n := 0, gsz; i < n; i++ {
 				iso = append(iso, span{base + pos, base + pos})
 				pos += uint64(2 + r.Intn(9))
 			}
@@ -363,6 +388,7 @@ func accUniverse32(r *rand.Rand, maxAtoms int) (*Universe, []iset, [][]int) {
 
 // randUniverse32 draws generators + cut points and returns the Venn universe.
 var minKeys = 1
+var spreadKeys = 0 // > 0: generators may contain a "spread" over that many consecutive chunk keys
 
 func randUniverse32(r *rand.Rand, maxAtoms int) (*Universe, []iset) {
 	for {
@@ -460,7 +486,7 @@ var allOps32 = []string{
 	"NextValue", "PreviousValue", "NextAbsentValue", "PreviousAbsentValue", "ToArray", "ChecksumEq", "ChecksumRT",
 	"Ser", "Load", "WriteFail", "Freeze", "FrozenRT", "LoadLegal", "DetachAll", "Scribble",
 	"Ser64", "Load64",
-	"ItNew", "ItTake", "ItPeek", "ItAdvance", "IterCb", "Ranges",
+	"ItNew", "ItTake", "ItPeek", "ItAdvance", "IterCb", "Ranges", "ConcLoad",
 }
 
 func profile(name string) Profile {
@@ -531,6 +557,7 @@ func profile(name string) Profile {
 		set(5, "Build")
 	case "parallel": // C12
 		set(12, "ParOr", "ParAnd", "ParHeapOr")
+		set(5, "ConcLoad")
 		set(2, "FastOr", "FastAnd", "HeapOr")
 		set(2, mut...)
 		set(1, "RunOptimize", "Clone", "SetCOW")
@@ -896,6 +923,11 @@ func (g *Gen) next(e *Exec) Call {
 	case "Ranges":
 		c.X = g.slot()
 		c.V = pick(r, []int{0, 0, 1, 2, 3, 7})
+	case "ConcLoad":
+		for i, n := 0, 2+r.Intn(2); i < n; i++ {
+			c.Xs = append(c.Xs, 1+r.Intn(3))
+		}
+		c.V, c.J = r.Intn(2), r.Intn(8)
 	case "Ser64":
 		c.X, c.V = g.slot(), r.Intn(4)
 	case "Load64":
